@@ -146,12 +146,17 @@ def work_model(arg):
     if ok.all():
         quad = name in QUAD_MODELS
         for kind, arr in (('1-d', numpy.array(ps, dtype=float)), ('2 elements', numpy.array(ps[2:4], dtype=float)), ('0-d', numpy.array(ps[3])), ('list', list(ps)),
-                          ('1-d from 0', numpy.array([0.0] + list(ps), dtype=float)), ('list from 0', [0] + list(ps)), ('tuple', tuple(ps[1:4]))):
+                          ('1-d from 0', numpy.array([0.0] + list(ps), dtype=float)), ('list from 0', [0] + list(ps)), ('tuple', tuple(ps[1:4])),
+                          # arrays whose memory layout differs from their logical order, and read-only arrays
+                          ('reversed view', numpy.array(ps[::-1], dtype=float)[::-1]), ('strided view', numpy.repeat(numpy.array(ps, dtype=float), 2)[::2]),
+                          ('read-only', (lambda a_: (a_.setflags(write=False), a_)[1])(numpy.array(ps, dtype=float))),
+                          ('F-ordered 2-d', numpy.asfortranarray(numpy.array(ps[:6], dtype=float).reshape(2, 3))),
+                          ('transposed 2-d', numpy.array(ps[:6], dtype=float).reshape(3, 2).T)):
             keep = numpy.array(arr, dtype=float).copy()
             o = core.call(m.spreading_pressure, arr)
             out['ev'] += 1
             if not o.ok:
-                if kind in ('list', 'list from 0', 'tuple') or quad:
+                if kind in ('list', 'list from 0', 'tuple', 'F-ordered 2-d', 'transposed 2-d') or quad:
                     out['array_refused'] = out.get('array_refused', 0) + 1
                     continue        # plain lists are not part of the numeric interface of every model
                 if kind == '1-d from 0' and name in ('DR', 'DA'):
@@ -160,7 +165,8 @@ def work_model(arg):
                 continue
             out['nt'] += 1
             want = {'1-d': sps, 'list': sps, '2 elements': sps[2:4], '0-d': sps[3], '1-d from 0': numpy.concatenate([[0.0], sps]),
-                    'list from 0': numpy.concatenate([[0.0], sps]), 'tuple': sps[1:4]}[kind]
+                    'list from 0': numpy.concatenate([[0.0], sps]), 'tuple': sps[1:4], 'reversed view': sps, 'strided view': sps, 'read-only': sps,
+                    'F-ordered 2-d': sps[:6].reshape(2, 3), 'transposed 2-d': sps[:6].reshape(3, 2).T}[kind]
             got = numpy.asarray(o.value, dtype=float)
             if name == 'TemkinApprox' and kind.endswith('from 0'):
                 want = numpy.array(want, dtype=float)
